@@ -73,6 +73,7 @@ pub fn max_end(items: &Vec<BedEntry>) -> (r: u32)
 }
 
 //@extract fn bigtools/src/bbi/bigbedwrite.rs encode_section
+//@rule R16
 //@rule R1
 //@rule R3 min=3
 //@rule R7 min=1
